@@ -4,6 +4,10 @@ CONSTANTS
   Caps <- CapsAll
   GMasks <- FewGroups
   SMasks <- SiteMasks
+  JMasks <- NoSites
+  TMasks <- NoSites
+  AMasks <- NoSites
+  FlagSets <- NoFlags
   Statics <- BothBool
   CatMasks <- AllCats
   QPos <- Q02
@@ -16,5 +20,6 @@ INVARIANT TypeOK
 INVARIANT Bounded
 INVARIANT StatusIsOverflow
 INVARIANT Faithful
+INVARIANT GroupLaw
 INVARIANT MinLaw
 CHECK_DEADLOCK FALSE
